@@ -648,3 +648,125 @@ def check_conditions(ctx, tag, n):
     ctx.coverage['conditions_verdicts'] = stats
     ctx.coverage['evaluations'] += len(texts) + len(ops)
     return stats.get('PLAgree', 0)
+
+
+# ------------------------------------------------------------------ queries with filters, one level deep (FilterParse.access_f)
+FL_HEADER = ('From Coq Require Import String ZArith NArith List.\nFrom GV.Model Require Import Ast.\nFrom GV.Model Require Import ValueParse QueryParse OpParse ClauseParse CnfParse FilterParse.\n'
+             'Import ListNotations.\n')
+
+
+def guard_clause_as_when(g):
+    """a clause inside a filter (GuardClause) as an impl_when term: only plain access clauses are in the model"""
+    if g[0] == 'GClause':
+        return impl_when_term(['WClause', g[1]])
+    return 'IWOther'
+
+
+def impl_fpart_term(p):
+    t = p[0]
+    if t == 'Filter':
+        name = ct.ostr(p[1])
+        lines = [ct.clist([guard_clause_as_when(g) for g in ct.L(d)]) for d in ct.L(p[2])]
+        return '(IFFilter %s %s)' % (name, ct.clist(lines))
+    if t == 'MapKeyFilter':
+        name, cmp_, w = ct.ostr(p[1]), p[2], p[3]
+        if w[0] == 'LValue':
+            try:
+                wt = '(IRLit %s)' % pv_lit_term(w[1])
+            except ct.TranslateError:
+                wt = 'IROther'
+        elif w[0] == 'LAccess':
+            wt = 'IROther' if has_filter(w[1]) else '(IRQuery %s)' % ct.access_query(w[1])
+        else:
+            wt = 'IROther'
+        return '(IFKeys %s O%s %s %s)' % (name, cmp_[1], ct.cbool(cmp_[2]), wt)
+    return '(IFP %s)' % ct.query_part(p)
+
+
+def impl_fquery_term(res):
+    if res[0] != 'Ok':
+        return {'Error': 'IFQError', 'Failure': 'IFQFailure'}.get(res[0], 'IFQOther')
+    aq = res[1]
+    parts = []
+    for p in ct.L(aq[1]):
+        try:
+            parts.append(impl_fpart_term(p))
+        except (ct.TranslateError, KeyError, IndexError, TypeError):
+            parts.append('IFOther')
+    return '(IFQOk %s %s %d%%N)' % (ct.clist(parts), ct.cbool(aq[2]), res[2])
+
+
+FL_FILTERS = ['[ b == 1 ]', "[ Type == 'T' ]", '[ k | Type == "T" ]', '[ name| a exists ]', '[ a exists\n  b == 2 ]', '[ a == 1 or b == 2 ]', '[ a == 1 OR\n b in [1,2] or c !empty ]', '[ not a exists ]',
+              '[ a == %v ]', '[ a.b[0] == c.d ]', '[ keys == "x" ]', '[ KEYS == /re/ ]', '[ keys in ["a", "b"] ]', '[ keys not in ["a"] ]', '[ keys != "x" ]', '[ k | keys == "x" ]', '[ keys == %v ]',
+              '[ keys == a.b ]', '[ keys !in ["a"] ]', '[ keys exists ]', '[ keys ]', '[ keys == ]', '[ keys == "x" y ]', '[ a == 1', '[ a == 1 }', '[ a == ]', '[ ]', '[ | a == 1 ]', '[ k | ]', '[ k || a == 1 ]',
+              '[ when a exists { b exists } ]', '[ a { b exists } ]', '[ a !empty { b exists } ]', '[ a !empty ]', '[ a not empty ]', '[ chk(a) ]', '[ not chk(a) ]', '[ myrule ]', '[ a exists <<m>> ]',
+              '[ a[ b == 1 ] exists ]', '[ a == 1 ][ b == 2 ]', '[ a == 1 ].c[ d == 2 ]', '[ this == 1 ]', '[ this.a == "x" # c\n ]', '[#c\n a == 1 ]', '[ a == 1 # c\n]', '[ whenever exists ]', '[ x|y == 1 ]',
+              '[ k|keys == "a" ]', '[ a == count(b) ]', '[ a <= 1.5 ]', '[ é == 1 ]']
+
+
+def filter_corpus(seed, n):
+    rng = random.Random(seed * 3001 + 14)
+    texts = []
+    for f in FL_FILTERS:
+        texts += ['a' + f, 'a.b' + f + '.c', 'a.*' + f, 'a[*]' + f + ' exists', '%v' + f, '%v' + f + '.x', 'this' + f, 'some a' + f + '.c == 1', 'a ' + f, 'a\n  ' + f + '\n  .c', 'a["k"]' + f, 'a' + f + '[0]']
+    while len(texts) < n:
+        t = rng.choice(['a', 'a.b', 'Resources.*', '%v', '%v.x', 'this', 'some a', 'a[*]', 'a.0'])
+        for _ in range(rng.choice([1, 1, 2, 3])):
+            r = rng.random()
+            if r < 0.55:
+                t += rng.choice(['', '', ' ', '\n ']) + rng.choice(FL_FILTERS)
+            elif r < 0.75:
+                body = rng.choice(LAYOUTS) + (rng.choice(['k |', 'k|', ' n  | ', '']) if rng.random() < 0.3 else '')
+                lines = []
+                for _l in range(rng.choice([1, 1, 2])):
+                    alts = [gen_clause_text(rng) if rng.random() < 0.5 else rng.choice(CN_ELEMS) for _a in range(rng.choice([1, 1, 2]))]
+                    lines.append(rng.choice(CN_ORS[:8]).join(alts))
+                t += '[' + body + rng.choice(CN_SEPS[:5]).join(lines) + rng.choice(LAYOUTS) + rng.choice([']', ']', ']', '', '}'])
+            else:
+                t += gen_part_text(rng)
+        t += rng.choice(TAILS)
+        texts.append(t)
+        if rng.random() < 0.25:
+            texts.append(mutate(t, rng))
+    seen, out = set(), []
+    for t in texts:
+        if t not in seen:
+            seen.add(t); out.append(t)
+    return out
+
+
+def run_filters(texts, wd, tag='flparse'):
+    from . import vparse
+    res = impl.run_ops_parallel([{'op': 'paccess', 'text': t} for t in texts], wd, tag + '.pf')
+    cands = sorted(set().union(*[vparse.regex_candidates(t) for t in texts])) if texts else []
+    cand_txt = []
+    for c in cands:
+        try:
+            cand_txt.append(c.decode('utf-8'))
+        except UnicodeDecodeError:
+            pass
+    rres = impl.run_ops_parallel([{'op': 'regex', 're': c, 'text': ''} for c in cand_txt], wd, tag + '.re') if cand_txt else []
+    valid = {}
+    for c, r in zip(cand_txt, rres):
+        rr = r.get('res')
+        valid[c] = bool(rr) and rr[0] == 'Ok'
+    cases, out = [], [None] * len(texts)
+    for i, (t, r) in enumerate(zip(texts, res)):
+        if 'res' not in r:
+            out[i] = (t, 'crash', r)
+            continue
+        mine = [c for c in cand_txt if c.encode('utf-8') in vparse.regex_candidates(t)] if '/' in t else []
+        table = ct.clist(['(%s, %s)' % (ct.cstr(c), ct.cbool(valid[c])) for c in mine])
+        rv = '(fun s => match assoc s %s with Some b => b | None => false end)' % table
+        try:
+            it = impl_fquery_term(r['res'])
+        except (ct.TranslateError, KeyError, IndexError, TypeError):
+            it = 'IFQOther'
+        cases.append((i, '', 'access_f_obs %s %s %s' % (rv, ct.cstr(t), it)))
+        out[i] = (t, None, r['res'])
+    verdicts, errors = model.eval_cases(cases, wd, tag, header=FL_HEADER, per_file=150)
+    if errors:
+        raise ToolingError('model evaluation failed: %r' % (errors[:1],))
+    for i, _, _ in cases:
+        out[i] = (out[i][0], verdicts.get(i, 'NoModelOutput'), out[i][2])
+    return out
